@@ -214,6 +214,17 @@ def run(ctx):
             scipy_dist_name = "gengamma"
         for Cls_, data, vals in ((MyWeibull, sts.weibull_min.rvs(1.7, loc=0.2, scale=2.5, size=300, random_state=5), {"c": 2.0, "loc": 0.1, "scale": 3.0}),
                                  (MyGenGamma, sts.gengamma.rvs(2.0, 1.5, scale=2.0, size=300, random_state=6), {"a": 1.7, "c": 2.3, "loc": 0.0, "scale": 2.5})):
+            # a parameter declared fixed has that value from construction on, also when a (different) start value for the same
+            # parameter is passed as well, in either keyword order (named families and ScipyDistribution subclasses alike)
+            for k in vals:
+                for order in ("fixed-first", "value-first"):
+                    kw2 = {"f_" + k: vals[k], k: vals[k] * 1.5 + 0.25} if order == "fixed-first" else {k: vals[k] * 1.5 + 0.25, "f_" + k: vals[k]}
+                    got = Cls_(**kw2).parameters[k]
+                    ctx.count(("scipydist-ctor", Cls_.scipy_dist_name, k, order), True)
+                    if got != vals[k]:
+                        ctx.violation({"cls": "ScipyDistribution", "clause": "constructor", "order": order},
+                                      "%s(%s).parameters[%r] = %r, the fixed value is %r" % (Cls_.scipy_dist_name, ", ".join("%s=%r" % kv for kv in kw2.items()), k, got, vals[k]),
+                                      {"cls": "ScipyDistribution", "ctor": kw2})
             for r in range(1, len(vals)):
                 for sub in itertools.combinations(vals, r):
                     kw = {"f_" + k: vals[k] for k in sub}
